@@ -24,3 +24,16 @@ add("C01",
     "Float rounding is observed, not modelled (1e-9 relative threshold defined in the spec, measured worst case < 1e-12). Bounded grids, "
     "not a proof over all coefficients. Quick tier checks path independence through the base unit and one seeded pivot per pair.",
     "DESIGN.md 6/C01")
+
+add("C06",
+    "TLA+ unit grammar (UnitGrammar!Parse, SI-prefix relation) evaluated by TLC on every exported table symbol + TLC judgement of the measured "
+    "factor ratios (closures and Scalar arithmetic) as a trace",
+    "TLC - not the harness - decomposes each of the 1548 symbols with the table's own grammar and relates atomic rows to their SI stems by symbol "
+    "and registered name; for each of the ~850 decomposed and ~130 prefixed rows the harness measures the ratio of the row's factor to the "
+    "composition of the parts' factors on the real closures and through Scalar arithmetic in two groupings, and TLC judges every ratio "
+    "against the precision the table is written in. Exhaustive over the table. 43 rows of the pinned table disagree and are listed as open "
+    "known findings keyed by (row, ratio to 6 digits): any other row, or a listed row whose ratio changes, is a violation.",
+    "Rows are judged relative to the base unit of their quantity type (and to the base row's own composition when it decomposes). "
+    "Blind spot: an atomic, un-prefixed row whose two closures are changed consistently relates to no other row. "
+    "Tolerance = half a unit in the last written place of the literals (<= 3 significant digits count as exact).",
+    "DESIGN.md 6/C06")
